@@ -1545,11 +1545,9 @@ def ldap_partition_value(draw):
         traits = _uniq(draw, _txt(WORD_DASH, 1, 6), _count(draw))
         limits = []
         for trait in traits:
-            lim = {'trait': trait}
-            _maybe(draw, lim, 'cpu', _cpu(), none_ok=False)
-            _maybe(draw, lim, 'disk', _size(), none_ok=False)
-            _maybe(draw, lim, 'memory', _size(), none_ok=False)
-            limits.append(lim)
+            # cli/admin/ldap/partition.py `limit` always writes all four
+            limits.append({'trait': trait, 'cpu': draw(_cpu()),
+                           'disk': draw(_size()), 'memory': draw(_size())})
         obj['limits'] = limits
     return {
         'obj': obj,
@@ -1865,7 +1863,8 @@ def _raw_entry(draw, new):
 @cached
 @st.composite
 def diff_entries_case(draw):
-    mode = draw(_pick('app', 'app', 'cellalloc', 'partition', 'raw', 'raw'))
+    mode = draw(_pick('app', 'cellalloc', 'cellalloc', 'partition',
+                      'partition', 'raw'))
     if mode == 'raw':
         return {'codec': 'diff_entries', 'mode': 'raw',
                 'old': draw(_raw_entry(False)), 'new': draw(_raw_entry(True))}
@@ -1875,6 +1874,11 @@ def diff_entries_case(draw):
     first, second = _ldap_pair(draw, strat, inner)
     if second is None:
         second = draw(strat)
+    if inner:
+        # aim at the update that empties a list the stored record has
+        for key in ('traits', 'systems'):
+            if first[inner].get(key) and draw(_ints(0, 2)) == 0:
+                second[inner][key] = []
     return {'codec': 'diff_entries', 'mode': mode,
             'old': first if inner is None else first['obj'],
             'new': second if inner is None else second['obj']}
